@@ -59,6 +59,11 @@ class C03(Prop):
                     if ai == "":
                         ai = origin
                 lines = [r.choice(PATTERNS) for _ in range(r.randint(1, 4))]
+                if r.random() < 0.2:
+                    # a pattern restated after a negation (last match wins within a file), or simply repeated
+                    pos, neg = r.choice([("*.log", "!keep.log"), ("*.txt", "!*.txt"), ("foo", "!/foo"), ("target/", "!target/"), ("*", "!*"),
+                                         ("x.log", "!*.log"), ("test/", "!test/")])
+                    lines = r.choice([[pos, neg, pos], [neg, pos, neg], [pos, neg, pos, neg], [pos, pos, neg]]) + lines[:1]
                 files.append({"applies_in": ai, "lines": lines})
             globs = []
             if r.random() < 0.25:
